@@ -8,7 +8,9 @@ package accumulation
 //	type S2 struct{}   func (s S2)  Get() *int { G2 }   func (s S2)  Set(p *int) { T2 }     (value receiver)
 //	func use(i I) { U }            U: _ = *i.Get() | if v := i.Get(); v != nil { _ = *v } | i.Set(nil) | i.Set(new(int))
 //	func Entry() { conversion(s) of &S1{} and/or S2{} to I: assignment, argument, either in a branch, both, `:=` reusing an
-//	               interface variable, return statement, composite literal, append, decorator (struct embedding I converted to J) }
+//	               interface variable, return statement, composite literal, append, decorator (struct embedding I converted to J),
+//	               explicit conversion I(x), package-level variable, grouped named results, indexed literal element, variadic
+//	               parameter, append on a named slice type, call through a function-typed variable, forwarded multi-value call }
 //
 // G ::= return nil | return new(int)      T ::= _ = *p | if p != nil { _ = *p }
 // With SPLITS=2 the interface and use() also live in a dependency m/q (facts handed to the importer).
@@ -68,7 +70,7 @@ func Harness_P09() {
 	default:
 		useBody = "\ti.Set(new(int))\n"
 	}
-	conv := ndChoice("conversion", ndParam("CONVERSIONS", 9))
+	conv := ndChoice("conversion", ndParam("CONVERSIONS", 17))
 	if conv == 8 {
 		// the decorator shape uses the value through the second interface only
 		ifaceTo.WriteString("func Use(i I) {}\n\n")
@@ -80,6 +82,16 @@ func Harness_P09() {
 	flag0 := ndBool("flag0")
 	var sees1, sees2 bool // use() runs with S1 / S2 in some execution
 	switch conv {
+	case 10: // package-level variable
+		b.WriteString("var gi " + q + "I = &S1{}\n\n")
+	case 11: // grouped named results: the second result is the one that is used
+		b.WriteString("func mk2() (a, b " + q + "I) { return S2{}, &S1{} }\n\n")
+	case 13: // variadic interface parameter
+		b.WriteString("func all(is ..." + q + "I) {\n\tfor _, i := range is {\n\t\t" + q + "Use(i)\n\t}\n}\n\n")
+	case 14: // append on a named slice type
+		b.WriteString("type ilist []" + q + "I\n\n")
+	case 16: // a multi-value call forwarded by a return statement
+		b.WriteString("func mkS() (*S1, int) { return &S1{}, 1 }\n\nfunc mkI() (" + q + "I, int) { return mkS() }\n\n")
 	case 5: // conversion at a return statement
 		b.WriteString("func mk() " + q + "I { return &S1{} }\n\n")
 	case 8: // decorator: a struct that embeds the interface is converted to ANOTHER interface
@@ -111,8 +123,32 @@ func Harness_P09() {
 	case 7: // append
 		b.WriteString("\tvar is []" + q + "I\n\tis = append(is, S2{})\n\t" + q + "Use(is[0])\n")
 		sees2 = true
-	default: // decorator
+	case 8: // decorator
 		b.WriteString("\tvar inner " + q + "I = &S1{}\n\tuseJ(wrap{inner})\n")
+		sees1 = true
+	case 9: // explicit conversion
+		b.WriteString("\ti := " + q + "I(&S1{})\n\t" + q + "Use(i)\n")
+		sees1 = true
+	case 10:
+		b.WriteString("\t" + q + "Use(gi)\n")
+		sees1 = true
+	case 11:
+		b.WriteString("\t_, i := mk2()\n\t" + q + "Use(i)\n")
+		sees1 = true
+	case 12: // keyed slice literal
+		b.WriteString("\tis := []" + q + "I{0: &S1{}}\n\t" + q + "Use(is[0])\n")
+		sees1 = true
+	case 13:
+		b.WriteString("\tall(&S1{})\n")
+		sees1 = true
+	case 14:
+		b.WriteString("\tvar l ilist\n\tl = append(l, S2{})\n\t" + q + "Use(l[0])\n")
+		sees2 = true
+	case 15: // call through a variable of function type
+		b.WriteString("\tfn := " + q + "Use\n\tfn(&S1{})\n")
+		sees1 = true
+	default:
+		b.WriteString("\ti, _ := mkI()\n\t" + q + "Use(i)\n")
 		sees1 = true
 	}
 	b.WriteString("}\n")
